@@ -110,7 +110,13 @@ func VerifyFunc(w *World, key string, opts VerifyOpts) (res *FuncResult) {
 	sc0 := fr.scope(st0, st0)
 	var reqs []string
 	for _, cl := range ct.Requires {
-		g := fr.evalClause(sc0, cl)
+		g, ok := fr.tryEvalClause(sc0, cl)
+		if !ok {
+			// a precondition that no longer evaluates against the code (it names something a refactoring
+			// removed) is dropped: assuming less is sound
+			c.Notes = append(c.Notes, fmt.Sprintf("%s: precondition %q no longer evaluates against the code; dropped (nothing assumed)", key, cl.Text))
+			continue
+		}
 		reqs = append(reqs, g)
 		c.assume(g)
 	}
@@ -148,6 +154,19 @@ func VerifyFunc(w *World, key string, opts VerifyOpts) (res *FuncResult) {
 		c.oblige(fmt.Sprintf("%s#lock:balanced", key), "lock", key, "every lock acquired is released on every path", fr.pos(fn.Pos()), ret.st.Reach, g, nil)
 	}
 	return
+}
+
+func (fr *Frame) tryEvalClause(sc *Scope, cl *Clause) (t string, ok bool) {
+	defer func() {
+		if r := recover(); r != nil {
+			if _, isEval := r.(evalError); isEval {
+				ok = false
+				return
+			}
+			panic(r)
+		}
+	}()
+	return fr.evalClause(sc, cl), true
 }
 
 func trimStack(b []byte) string {
@@ -254,6 +273,9 @@ func runObligation(c *Ctx, ob *Obligation, o RunOpts) {
 	q := c.Query(ob)
 	name := fmt.Sprintf("q%04d_%s.smt2", n, trunc(mangle(ob.Name), 80))
 	ob.File = writeScratch(name, q)
+	if qq, ok := quantifiedVariant(q); ok {
+		writeScratch(name+".cvc5", qq)
+	}
 	if ob.Kind == "vacuity" {
 		// expect sat (or at least not unsat)
 		r := runOne("z3-new", ob.File, o.TimeoutS, o.Seed)
